@@ -8,7 +8,9 @@ import (
 	"sort"
 	"strings"
 	"testing"
+	"unicode"
 
+	"github.com/go-text/typesetting/language"
 	"pgregory.net/rapid"
 
 	"verif/internal/ev"
@@ -71,6 +73,13 @@ func checkCase(t ev.TB, fe *fontEntry, c *Case, survey func(class string, f fail
 		labels = append(labels, "flags_default_ignorables")
 	}
 	labels = append(labels, "font_"+stratum(fe.traits))
+	labels = append(labels, textLabels(fe, c)...)
+	if c.Invisible != 0 {
+		labels = append(labels, "invisible_glyph_set")
+	}
+	if c.NotFound != 0 {
+		labels = append(labels, "not_found_glyph_set")
+	}
 
 	if perr != nil {
 		ev.Case(true, c, append(labels, "port_panic")...)
@@ -132,6 +141,60 @@ func checkCase(t ev.TB, fe *fontEntry, c *Case, survey func(class string, f fail
 	}
 }
 
+var complexAlphabetScripts = map[language.Script]bool{}
+
+func init() {
+	for _, s := range []language.Script{language.Arabic, language.Syriac, language.Nko, language.Mongolian, language.Hebrew, language.Devanagari,
+		language.Bengali, language.Gurmukhi, language.Gujarati, language.Oriya, language.Tamil, language.Telugu, language.Kannada, language.Malayalam,
+		language.Sinhala, language.Khmer, language.Myanmar, language.Thai, language.Lao, language.Tibetan, language.Hangul, language.Balinese,
+		language.Javanese, language.Tai_Tham, language.Batak, language.Brahmi, language.Kaithi} {
+		complexAlphabetScripts[s] = true
+	}
+}
+
+// textLabels classifies the item text: do joiners / ignorables / marks sit *inside* words, between
+// letters a complex shaper and the font's contextual lookups work on?
+func textLabels(fe *fontEntry, c *Case) []string {
+	item := c.item()
+	var out []string
+	seen := map[string]bool{}
+	add := func(l string) {
+		if !seen[l] {
+			seen[l] = true
+			out = append(out, l)
+		}
+	}
+	complexLetter := func(r rune) bool { return unicode.IsLetter(r) && complexAlphabetScripts[language.LookupScript(r)] }
+	for i, r := range item {
+		inner := i > 0 && i+1 < len(item)
+		switch {
+		case r == 0x200D && inner && complexLetter(item[i-1]) && complexLetter(item[i+1]):
+			add("zwj_inside_complex_word")
+			if fe.rich.contextual > 0 {
+				add("zwj_inside_complex_word_font_has_contextual_lookups")
+			}
+		case r == 0x200C && inner && complexLetter(item[i-1]) && complexLetter(item[i+1]):
+			add("zwnj_inside_complex_word")
+		case (r == 0x034F || r >= 0xFE00 && r <= 0xFE0F || r >= 0x180B && r <= 0x180D || r == 0x2060 || r == 0x00AD || r == 0x200B) && inner &&
+			unicode.IsLetter(item[i-1]) && unicode.IsLetter(item[i+1]):
+			add("ignorable_inside_word")
+		case isMarkRune(r) && inner && unicode.IsLetter(item[i-1]) && unicode.IsLetter(item[i+1]):
+			add("mark_inside_word")
+		case r == 0x2007 || r >= 0x2000 && r <= 0x200A || r == 0x202F || r == 0x205F || r == 0x3000:
+			if _, ok := fe.face.NominalGlyph(r); !ok {
+				add("fallback_space")
+			}
+		}
+		if (r == 0x200D || r == 0x200C) && inner && unicode.IsLetter(item[i-1]) && unicode.IsLetter(item[i+1]) {
+			add("joiner_inside_word")
+		}
+	}
+	if fe.rich.rich() {
+		add("font_rich")
+	}
+	return out
+}
+
 func dirName(d int) string {
 	switch d {
 	case 4:
@@ -161,7 +224,10 @@ func isIdentityMapping(fe *fontEntry, c *Case, got portResult) bool {
 		if backward {
 			k = len(item) - 1 - i
 		}
-		gid, _ := fe.face.NominalGlyph(item[k])
+		gid, ok := fe.face.NominalGlyph(item[k])
+		if !ok {
+			gid = harfbuzzGID(uint32(c.NotFound))
+		}
 		if g.ID != uint32(gid) || g.Cluster != c.Offset+k {
 			return false
 		}
@@ -325,8 +391,9 @@ func TestPropShape(t *testing.T) {
 		fmt.Println("INFRASTRUCTURE: no corpus font available to this shard")
 		os.Exit(2)
 	}
+	cum := fontWeights(fonts)
 	rapid.Check(t, func(t *rapid.T) {
-		fe, c := genCase(t, fonts)
+		fe, c := genCase(t, fonts, cum)
 		checkCase(t, fe, c, nil)
 	})
 }
@@ -348,8 +415,9 @@ func TestSurvey(t *testing.T) {
 	enc := json.NewEncoder(f)
 	counts := map[string]int{}
 	perFont := map[string]map[string]int{}
+	cum := fontWeights(fonts)
 	rapid.Check(t, func(t *rapid.T) {
-		fe, c := genCase(t, fonts)
+		fe, c := genCase(t, fonts, cum)
 		checkCase(t, fe, c, func(class string, fl failure) {
 			counts[class]++
 			if perFont[class] == nil {
